@@ -1165,7 +1165,7 @@ PROP_THEOREMS = {
             "C04_reserved_block_type_never_accepted_partial", "C04_stored_length_check_never_accepted_partial",
             "C04_truncated_without_more_input_flag_partial"],
     "C05": ["C05_bad_geometry_is_param_error", "C05_failure_is_absorbing", "C05_counts_within_bounds",
-            "C05_returns_on_stored_streams_partial"],
+            "C05_returns_on_stored_streams_partial", "C05_model_constants_are_source_constants"],
     "C06": ["C06_undo_leaves_less_than_a_byte", "C06_stored_streams_consumed_exactly_partial"],
     "C07": ["C07_read_bits_resume_partial", "C07_stored_streams_any_input_split_partial",
             "C07_stored_streams_any_schedule_partial"],
